@@ -203,6 +203,8 @@ func vfC14(w *vfWorld) {
 	w.panicProp = "C14"
 	cfg := vfDefaultCfg()
 	cfg.Store = vfPick(t, "c14.store", []string{"cookie", "redis"})
+	// a sixth of the worlds run their provider configuration migrated to the alpha (YAML) format by the product's own converter
+	cfg.Alpha = t.Prob("c14.alpha-config", 160)
 	cfg.CookieRefresh, cfg.CookieExpire = 10*time.Minute, 6*time.Hour
 	cfg.Extra = append(cfg.Extra, "--pass-access-token=true", "--set-xauthrequest=true", "--skip-jwt-bearer-tokens=true")
 	flows := []string{"login", "login-profile", "bearer", "refresh", "plain-login", "plain-stale", "refresh-profile", "google-login", "backend-logout", "google-refresh", "azure-login", "logingov-login"}
